@@ -80,7 +80,7 @@ def match_known(known, prop, h, chk):
 # harness; hand-written ones default to 30) - the sample is stratified by (module, kind) and chosen with VERIF_SEED
 QUICK_BUDGET = {"C01": 1500, "C04": 1500, "C05": 1500, "C09": 1600, "C10": 1600, "C12": 2000, "C13": 2000, "C14": 1500,
                 "C15": 1500, "C16": 3000, "C17": 2500, "C20": 900, "C02": 3000}
-QUICK_MAX_COST = 120
+QUICK_MAX_COST = 130
 
 
 def select(meta, prop, tier, seed, known):
